@@ -23,7 +23,7 @@ ID = "C08"
 PROPS = "Props/C08.v"
 EXTRACT = "extract/ExC08.v"
 OBLIGATION = "swhid-roundtrip"
-THEOREMS = ["C08_core_roundtrip", "C08_ext_roundtrip", "C08_qualified_roundtrip", "C08_grammar", "C08_grammar_shape", "C08_conversions", "C08_explicit_namespace_version", "C08_huge_line_refuted", "C08_tables", "C08_satisfiable"]
+THEOREMS = ["C08_core_roundtrip", "C08_ext_roundtrip", "C08_qualified_roundtrip", "C08_grammar", "C08_grammar_shape", "C08_conversions", "C08_explicit_namespace_version", "C08_bool_print_refuted_old", "C08_huge_line_refuted", "C08_tables", "C08_satisfiable"]
 RULE = ("all 5/7 object types x random 20-byte ids x all 32 qualifier subsets x adversarial origins "
         "(';' '%' '%3B' '%25' '=' '%zz', non-ASCII, astral, lone surrogates, empty, random over a hostile alphabet) x "
         "paths (every single byte value, random bytes, empty, '/'-heavy) x line numbers/ranges (0, equal, reversed, "
@@ -31,7 +31,9 @@ RULE = ("all 5/7 object types x random 20-byte ids x all 32 qualifier subsets x 
         "a twin, a fresh parse) after a caller emptied and polluted the dict returned by qualifiers(); argument shapes: object_type as "
         "str / str subclass / member of the class's enum / member of the OTHER enum, namespace= and scheme_version= left out or given "
         "explicitly (the defaults, and wrong ones: other case, empty, trailing blank, 0, 2, -1, 10^20), bytes / str subclasses for "
-        "object_id, path, origin; the same id (and ids one byte apart) shared by the value, its visit and its anchor and by consecutive "
+        "object_id, path, origin; numbers of another class where an int is declared - bool (0 / 1), an int subclass whose "
+        "str() / repr() lie, an IntEnum member for line numbers and scheme_version, a float / Fraction equal to the version - which "
+        "must print and round-trip exactly like the plain int and equal their plain twin (same hash); the same id (and ids one byte apart) shared by the value, its visit and its anchor and by consecutive "
         "values of all 7 types (module-level lru_cache of hash_to_hex / hash_to_bytes); every single origin character 0..255 plus "
         "look-alikes of ';' '%', zero-width and non-characters, surrogates, plane ends; origins / paths of 3000-6000 characters; "
         "ill-typed constructor arguments (str / bytearray / memoryview ids, bytes origin, list / 1- / 3-tuple / float / str-pair "
@@ -45,8 +47,8 @@ TRUSTED = ["stdlib behaviour as modelled in coq/lib/Utf8.v, coq/lib/Percent.v, c
 ASSUMPTIONS = ["20-byte ids; visit/anchor are valid CoreSWHID objects; line numbers >= 0 with at most "
                "sys.get_int_max_str_digits() digits (beyond: known finding int-max-str-digits)",
                "origins containing whitespace are outside C08's stated domain: generated, but only tied in C09",
-               "line numbers and scheme_version are ints proper: bool (an int subclass: lines=(True, None) prints ';lines=True', "
-               "scheme_version=True prints 'swh:True:') and a float version equal to 1 are not generated (reported, not tested)"]
+               "a scheme_version that compares equal to 1 without being a real number (complex(1, 0) passes the validator, "
+               "then str() raises TypeError) is not generated: reported, outside the annotated type"]
 
 CORE_TYPES = ["snp", "rel", "rev", "dir", "cnt"]
 EXT_TYPES = CORE_TYPES + ["ori", "emd"]
@@ -342,6 +344,29 @@ def shapes(rng, tier):
             out.append(c)
     bad = {"k": "core", "ty": "xyz", "oid": "00" * 20, "ns": "foo"}           # converter error comes before the validators
     out += [bad, dict(bad, k="ext"), dict(bad, ty="cnt", oid="00" * 19), dict(q_case(rng, "xyz", 31), ns="foo", ver="2")]
+    # numbers of another class where an int is declared (bool is an int for the validators; True == 1)
+    for ln in (["1", None], ["0", None], ["1", "0"], ["0", "1"], ["1", "1"], ["0", "0"]):
+        for mask in (16, 31):
+            for how in ("bool", "bool-first", "bool-second"):
+                if how == "bool-second" and ln[1] is None:
+                    continue
+                out.append(dict(q_case(rng, rng.choice(CORE_TYPES), mask, lines=ln), lines_as=how))
+    for i in range(60 if thorough else 10):
+        for how in ("intsub", "intenum"):
+            out.append(dict(q_case(rng, CORE_TYPES[i % 5], rng.choice([16, 31, 16 + rng.randrange(16)])), lines_as=how))
+    for how in ("intsub", "intenum"):
+        for ln in (["0", None], ["0", "0"], ["10^50", "7"], ["10^%d-1" % LIM, None], ["10^%d" % LIM, None]):
+            out.append(dict(q_case(rng, "cnt", 16, lines=ln), lines_as=how))
+    for cls in ("core", "ext", "q"):
+        for ver, hows in (("1", ("bool", "float", "intsub", "intenum", "fraction")), ("0", ("bool", "float", "intsub")),
+                          ("2", ("float", "intenum")), ("-1", ("float", "intsub")), ("10^20", ("float", "intsub"))):
+            for how in hows:
+                c = q_case(rng, rng.choice(CORE_TYPES), rng.choice([0, 31])) if cls == "q" else {"k": cls, "ty": rng.choice(CORE_TYPES),
+                                                                                                 "oid": rand_oid(rng)}
+                c["ver"], c["ver_as"] = ver, how
+                if cls == "q" and c["lines"] is not None and how == "bool":
+                    c["lines"], c["lines_as"] = ["1", "0"], "bool"
+                out.append(c)
     # bytes / str subclasses
     for i in range(40 if thorough else 12):
         c = q_case(rng, CORE_TYPES[i % 5], 31 if i % 2 else rng.randrange(32))
@@ -354,7 +379,7 @@ def shapes(rng, tier):
         out.append(c)
         out.append({"k": ("core", "ext")[i % 2], "ty": CORE_TYPES[i % 5], "oid": rand_oid(rng), "sub": True})
     # one id for everything / ids one byte apart (hash_to_hex and hash_to_bytes are memoised per process)
-    for i in range(400 if thorough else 30):
+    for i in range(400 if thorough else 20):
         oid = rand_oid(rng)
         for ty in rng.sample(EXT_TYPES, 7):
             out.append({"k": "ext", "ty": ty, "oid": oid})
@@ -434,6 +459,8 @@ def shape_keys(c):
         ks.append("namespace/version-explicit-" + ("default" if c.get("ns", "swh") == "swh" and c.get("ver", "1") == "1" else "other"))
     if c.get("sub"):
         ks.append("bytes/str-subclass-arguments")
+    if c.get("lines_as") or c.get("ver_as"):
+        ks.append("number-of-another-class(bool/int-subclass/IntEnum/float)")
     return ks
 
 
@@ -478,6 +505,46 @@ class _S(str):
     pass
 
 
+class _LyingInt(int):
+    """an int subclass whose str() and repr() do not give the decimal"""
+    def __str__(self):
+        return "<%x>" % int(self)
+    __repr__ = __str__
+
+
+def _num(expr, how):
+    """the number `expr` as an object of another class"""
+    n = num_value(expr)
+    if how == "bool":
+        return bool(n) if n in (0, 1) else n
+    if how == "intsub":
+        return _LyingInt(n)
+    if how == "intenum":
+        import enum
+        return enum.IntEnum("_E", {"MEMBER": n}).MEMBER
+    if how == "float":
+        return float(n)
+    if how == "fraction":
+        import fractions
+        return fractions.Fraction(n, 1)
+    return n
+
+
+def _lines_arg(c):
+    if c["lines"] is None:
+        return None
+    how = c.get("lines_as")
+    a, b = c["lines"]
+    ha = how if how in ("bool", "intsub", "intenum", None) else ("bool" if how == "bool-first" else None)
+    hb = how if how in ("bool", "intsub", "intenum", None) else ("bool" if how == "bool-second" else None)
+    return (_num(a, ha), None if b is None else _num(b, hb))
+
+
+def plain(c):
+    """the same value with every number a plain int"""
+    return {k: v for k, v in c.items() if k not in ("lines_as", "ver_as")}
+
+
 def _ty_arg(c):
     """object_type as the caller spells it: the value (str), a str subclass, a member of the class's enum or of the other one"""
     from swh.model.swhids import ObjectType, ExtendedObjectType
@@ -504,7 +571,7 @@ def _build(c):
     if "ns" in c:
         kw["namespace"] = _S(c["ns"]) if sub else c["ns"]
     if "ver" in c:
-        kw["scheme_version"] = num_value(c["ver"])
+        kw["scheme_version"] = _num(c["ver"], c.get("ver_as"))
     if c["k"] == "core":
         return CoreSWHID(object_type=_ty_arg(c), object_id=by(c["oid"]), **kw)
     if c["k"] == "ext":
@@ -512,8 +579,7 @@ def _build(c):
 
     def mkcore(x):
         return None if x is None else CoreSWHID(object_type=x[0], object_id=by(x[1]))
-    lines = None if c["lines"] is None else (num_value(c["lines"][0]),
-                                             None if c["lines"][1] is None else num_value(c["lines"][1]))
+    lines = _lines_arg(c)
     origin = None if c["origin"] is None else uncps(c["origin"])
     return QualifiedSWHID(object_type=_ty_arg(c), object_id=by(c["oid"]),
                           origin=_S(origin) if sub and origin is not None else origin,
@@ -609,6 +675,11 @@ def impl(c):
             return [str(v), str(twin), str(reparsed), str(cls.from_string(str(v)))]
         a = _attempt(_again)
         res["print_again"] = {"ok": [cps(t) for t in a["ok"]]} if "ok" in a else a
+    if c.get("lines_as") or c.get("ver_as"):
+        def _twin():
+            t = _build(plain(c))
+            return [t == v and v == t, hash(t) == hash(v), cps(str(t))]
+        res["plain_twin"] = _attempt(_twin)
     if c["k"] == "core":
         x = _attempt(lambda: v.to_extended())
         res["ext"] = {"ok": fields_core(x["ok"])} if "ok" in x else x
@@ -722,6 +793,14 @@ def oracle(c, ires, mres):
         return "from_string(str(v)) has different field values: %r" % (r["ok"],)
     if not ires.get("eq"):
         return "from_string(str(v)) != v (or hashes differ)"
+    tw = ires.get("plain_twin")
+    if tw is not None:
+        if "ok" not in tw:
+            return "the same value with plain ints cannot be built / printed: " + tw.get("error", "?")
+        if not tw["ok"][0] or not tw["ok"][1]:
+            return "a value whose numbers are bools / int subclasses / a float version is not equal to (or hashes unlike) its plain-int twin"
+        if tw["ok"][2] != p["ok"]:
+            return "a value whose numbers are bools / int subclasses / a float version prints unlike its plain-int twin: %r" % text[:200]
     pa = ires.get("print_again")
     if pa is not None:
         if "ok" not in pa:
